@@ -34,7 +34,10 @@ META['bounds'] += (' || driver family: every member of the C02 template family a
                    'every access inside the buffer / owned memory, no trap, termination within the unwinding bounds')
 META['outside'] = META['outside'].replace('the scanner DRIVER TemplateCore::parse and the renderer over symbolic template text: out of reach', 'the scanner driver and the renderer over SYMBOLIC template text: out of reach (covered only on the listed concrete template family and its truncations)')
 MALFORMED = [('if_if_loop', '<if case="1"><if case="1"><loop value="v">{var:v}</loop></if></if>', 3), ('math_else', '{math:1+1<else>}', 0), ('mod_zero', '{math:5%0}', 0), ('div_zero', '{math:5/0}', 0),
-             ('unclosed_loop', '<loop value="v">{var:v}', 3), ('else_without_if', 'a<else>b</if>c', 0), ('nested_iif', '{if case="1" true="{if case="1" true="x"}"}', 0)]
+             ('unclosed_loop', '<loop value="v">{var:v}', 3), ('else_without_if', 'a<else>b</if>c', 0), ('nested_iif', '{if case="1" true="{if case="1" true="x"}"}', 0),
+             # end of input with two and more nested block tags still open (the parser unwinds its stack of open tags innermost first)
+             ('unclosed_if_if', '<if case="1">A<if case="1">B', 0), ('unclosed_loop_loop', '<loop value="v"><loop set="v" value="w">{var:w}', 6),
+             ('unclosed_if_loop_misnested', '<if case="1"><loop value="v">x</if>', 3), ('unclosed_if_if_if', '<if case="1"><if case="1"><if case="1">x', 0)]
 def queries(tier):
     qs = _leaf_queries(tier)
     step = 6 if tier == 'quick' else 1
